@@ -16,6 +16,9 @@ FailsEq(e) ==
   \cup If(e.res2 = e.res, "C13.eq_not_symmetric")
   \cup If(e.ne = ~e.res, "C13.ne_not_negation_of_eq")
   \cup If((e.a = e.b) => e.heq, "C13.equal_but_different_hash")
+  \* ... also once one of the two has been printed / compared with a text (a value's hash never changes)
+  \cup If(("heq2" \in DOMAIN e /\ e.a = e.b) => e.heq2, "C13.equal_but_different_hash")
+  \cup If("hstable" \in DOMAIN e => e.hstable, "C13.hash_of_a_value_changed")
 FailsEqt(e) == If(e.res = (e.toks = Show(e.a) /\ ~e.blank), "C13.text_eq_iff_canonical")
 FailsXor(e) == If(e.res = (Blind(e.a) = Blind(e.b)), "C13.xor_is_blind_equality")
 FailsClr(e) ==
